@@ -25,12 +25,13 @@ CLOSE_ERRS = ["reset", "timeout", "closed", "other2", "unreach"]
 GEN = {}   # hex of a generated (lcg) byte string -> the GenBytes object, for compact Gallina output
 
 
-def T(reads, writes=(), dls=(), cdst="", csrc=""):
+def T(reads, writes=(), dls=(), cdst="", csrc="", blocks=False):
     for d, _ in reads:
         if len(d) > 64 and hasattr(d, "seed"):
             GEN[bytes(d).hex()] = d
     return {"reads": [{"d": bytes(d).hex(), "e": e} for d, e in reads],
-            "writes": [{"n": n, "e": e} for n, e in writes], "dls": list(dls), "cdst": cdst, "csrc": csrc}
+            "writes": [{"n": n, "e": e} for n, e in writes], "dls": list(dls), "cdst": cdst, "csrc": csrc,
+            "csrc_blocks": blocks}
 
 
 def chunkings(stream, maxchunks):
@@ -89,6 +90,10 @@ def gen_half(ctx):
             for cf in (False, True):
                 for e in ("eof", "reset", "timeout"):
                     add(T([(b"xy", ""), (b"z", e)], cdst=cd, csrc=cs), cf, why="close-fault")
+    # the asynchronous Close(src) never returns
+    for e in ("eof", "reset", ""):
+        for cf in (False, True):
+            add(T([(b"xy", ""), (b"z", e)], cdst=rng.choice([""] + CLOSE_ERRS), csrc="reset", blocks=True), cf, why="close-blocks")
     # pairs of faults: read fault x write fault, read fault x deadline fault, write x deadline
     st = bytes(range(0x61, 0x67))
     for chunks in chunkings(st, 3):
@@ -131,7 +136,7 @@ def rand_thread(rng, maxreads=4):
         dls = [""] * rng.randrange(0, 9) + [rng.choice(["other3", "timeout"])]
     cd = rng.choice([""] * 3 + CLOSE_ERRS)
     cs = rng.choice([""] * 3 + CLOSE_ERRS)
-    return T(reads, writes, dls, cd, cs)
+    return T(reads, writes, dls, cd, cs, blocks=rng.random() < 0.15)
 
 
 def gen_pair(ctx):
@@ -143,7 +148,7 @@ def gen_pair(ctx):
     fixed = [
         (T([(b"ab", ""), (b"c", "eof")], cdst="reset", csrc="timeout"), T([(b"xy", "reset")], cdst="other2", csrc="reset")),
         (T([(b"ab", "")], [(1, "")]), T([(b"x", ""), (b"yz", "")], dls=["", "", "", "other3"])),
-        (T([(b"", "timeout")], csrc="unreach"), T([(b"q", "")], [(1, "pipe")], cdst="timeout")),
+        (T([(b"", "timeout")], csrc="unreach", blocks=True), T([(b"q", "")], [(1, "pipe")], cdst="timeout")),
     ]
     ids = ["U", "D", "Uc", "Dc"]
     depth = 5 if quick else 6
@@ -194,7 +199,7 @@ def g_ts(t):
     rs = glist(t["reads"], lambda r: "(%s, %s)" % (bspec_in(GEN.get(r["d"], bytes.fromhex(r["d"]))), gN(ERR[r["e"]])))
     ws = glist(t["writes"], lambda w: "(%s, %s)" % (gN(w["n"]), gN(ERR[w["e"]])))
     ds = glist(t["dls"], lambda d: gN(ERR[d]))
-    return "(%s, %s, %s, %s, %s)" % (rs, ws, ds, gN(ERR[t["cdst"]]), gN(ERR[t["csrc"]]))
+    return "(%s, %s, %s, %s, %s, %s)" % (rs, ws, ds, gN(ERR[t["cdst"]]), gN(ERR[t["csrc"]]), gbool(t.get("csrc_blocks", False)))
 
 
 def g_bytes_obs(h):
@@ -308,11 +313,15 @@ def run(ctx):
         elif "DATA RACE" in out3:
             ctx.fail("race/halfPipe", "the race detector reports a data race while two halfPipes relay (no error strings involved): %s"
                      % out3[out3.find("DATA RACE"):][:1500], {"mode": "free"})
-        # informational: with read/write/close errors the two directions and their closers write the
-        # tunnelStats error strings without synchronisation (outside what C05 states; see notes/C05.md)
-        rc4, out4, _ = ctx.go_inpkg(".", "pkg/station/lib", files, "^TestVerifC05$", free, race=True, timeout=1200)
-        ctx.cov["race_run_with_error_strings"] = {"rc": rc4, "cases": len(free), "data_race_reported": "DATA RACE" in out4,
-                                                  "first_report": out4[out4.find("DATA RACE"):][:700] if "DATA RACE" in out4 else ""}
+        # with read/write/close errors both directions and the asynchronous closers record error strings in
+        # the shared tunnelStats while the summary may already be printed: race-free since /repo 75ee005
+        rc4, out4, rres4 = ctx.go_inpkg(".", "pkg/station/lib", files, "^TestVerifC05$", free, race=True, timeout=1200)
+        ctx.cov["race_run_with_error_strings"] = {"rc": rc4, "cases": len(free), "data_race_reported": "DATA RACE" in out4}
+        if rres4 is None:
+            ctx.broken("driver", "Go driver did not run under -race (error-string cases): %s" % out4[-800:])
+        elif "DATA RACE" in out4:
+            ctx.fail("race/tunnelStats-error-strings", "the race detector reports a data race on the tunnel statistics while two "
+                     "halfPipes relay and fail: %s" % out4[out4.find("DATA RACE"):][:1500], {"mode": "free"})
 
     terms = []
     for c, r in zip(cases, res):
@@ -338,8 +347,11 @@ def run(ctx):
         if bad is None and (r["ncloseA"] < 1 or r["ncloseB"] < 1):
             bad = ("not-closed/" + tag, "a connection was never closed (Close calls: client side %d, covert side %d)"
                    % (r["ncloseA"], r["ncloseB"]))
-        if bad is None and r["gleak"] > 0:
-            bad = ("goroutine-leak/" + tag, "%d goroutine(s) left behind after both directions returned" % r["gleak"])
+        nblk = sum(1 for t in (ups, downs) if t is not None and t.get("csrc_blocks"))
+        if bad is None and (r["gleak"] > 0 or r["blocked"] > nblk or r["gleakAfter"] > 0):
+            bad = ("goroutine-leak/" + tag, "goroutines left behind after both directions returned: %d beyond the %d source closer(s) "
+                   "blocked inside Close (%d alive in total, %d after the blocked Close calls were released)"
+                   % (max(r["gleak"], r["blocked"] - nblk), nblk, r["blocked"], r["gleakAfter"]))
         if bad:
             ctx.fail(bad[0], bad[1], slim)
         # ---- correspondence term
@@ -353,12 +365,12 @@ def run(ctx):
                 g_ts(c[d]), gbool(c["cf"]), g_obs(dv), gN(counted), gN(err_code(rd)), gN(err_code(wr)),
                 gN(cnt["nr"]), gN(cnt["nw"]), gN(cnt["nd"])))
         elif mode == "pair":
-            terms.append("CPair (%s, %s, %s, (%s, %s, %s, %s, %s, %s, %s, %s, (%s, %s, %s), (%s, %s, %s)))" % (
+            terms.append("CPair (%s, %s, %s, (%s, %s, %s, %s, %s, %s, %s, %s, (%s, %s, %s), (%s, %s, %s), %s))" % (
                 g_ts(c["up"]), g_ts(c["down"]), glist(c["sched"], lambda t: gN(TID[t])),
                 g_obs(r["recvA"]), g_obs(r["recvB"]), gN(r["bytesUp"]), gN(r["bytesDown"]),
                 gN(err_code(r["clientErr"])), gN(err_code(r["covertErr"])), gN(r["ncloseA"]), gN(r["ncloseB"]),
                 gN(r["up"]["nr"]), gN(r["up"]["nw"]), gN(r["up"]["nd"]),
-                gN(r["down"]["nr"]), gN(r["down"]["nw"]), gN(r["down"]["nd"])))
+                gN(r["down"]["nr"]), gN(r["down"]["nw"]), gN(r["down"]["nd"]), gN(max(r["blocked"], 0))))
         else:
             terms.append(None)
     # ---- the real Proxy()
@@ -395,7 +407,7 @@ def run(ctx):
     ctx.sample({"case": {k: v for k, v in cases[-70].items()}, "observed": res[-70]})
     ctx.sample({"case": proxy_cases[0], "observed": pres[0]})
     ctx.require_kinds(["half/nofault", "half/read-fault/data", "half/read-fault/nodata", "half/write-fault/short",
-                       "half/write-fault/err", "half/deadline-fault", "half/close-fault", "half/pair/read+write",
+                       "half/write-fault/err", "half/deadline-fault", "half/close-fault", "half/close-blocks", "half/pair/read+write",
                        "half/pair/read+deadline", "half/large", "pair/exh-sched", "pair/random", "free/free", "proxy/dialfail"])
     idx = [i for i, t in enumerate(terms) if t is not None]
     mm = ctx.coq_mismatches("hp", HEADER, [terms[i] for i in idx], "chk", shard=400, need_vo=["C05/Run.vo"])
